@@ -135,6 +135,10 @@ def check_normalisation(idx: Index, res: Result) -> None:
     if len(ncalls) != 1:
         raise AnalysisError("Model.memoize: normalize() call not found")
     ma = norm_args(ncalls[0])
+    _massigns = single_assignments(memo.node)
+    for _k, _v in list(ma.items()):      # a parameter computed into a local first
+        if isinstance(_v, ast.Name) and len(_massigns.get(_v.id, [])) == 1:
+            ma[_k] = _massigns[_v.id][0]
 
     def strip_fp(e):
         return src(e).replace("fp.", "")
